@@ -436,4 +436,134 @@ theorem evalWith_spec (opf : ω → α → α → α) (get : κ → Except Err (
         rw [hbarr (fun k hk => hall k (by simp [Expr.fromIds, hk])) hr]; simp
       · rw [haarr (fun k hk => hall k (by simp [Expr.fromIds, hk])) hl]; simp
 
+/-! ### `ComponentLink.compute` (user function of n inputs) -/
+
+theorem allArr_map (as : List (SArr α)) : allArr (as.map Val.arr) = some as := by
+  induction as with
+  | nil => rfl
+  | cons a rest ih => simp [allArr, ih]
+
+theorem bshapeAll_spec (S : List Nat) : ∀ (shs : List (List Nat)), shs ≠ [] →
+    (∀ sh ∈ shs, Sub sh S) →
+    ∃ B, bshapeAll shs = some B ∧ Sub B S ∧ ∀ sh ∈ shs, Sub sh B
+  | [], h, _ => absurd rfl h
+  | [s], _, hall => by
+    refine ⟨s, rfl, hall s (by simp), ?_⟩
+    intro sh hsh
+    simp at hsh; subst hsh; exact Sub.refl _
+  | s :: s2 :: rest, _, hall => by
+    obtain ⟨B', hB', hB'S, hrest⟩ := bshapeAll_spec S (s2 :: rest) (by simp)
+      (fun sh hsh => hall sh (by simp [hsh]))
+    obtain ⟨B, hB, hBS, hsB, hB'B⟩ := bshape_spec (hall s (by simp)) hB'S
+    refine ⟨B, ?_, hBS, ?_⟩
+    · simp only [bshapeAll, hB', Option.bind_some, hB]
+    · intro sh hsh
+      simp only [List.mem_cons] at hsh
+      rcases hsh with rfl | hsh
+      · exact hsB
+      · exact Sub.trans (hrest sh (by simpa using hsh)) hB'B hBS
+
+/-- Pointwise relation between two lists of equal length. -/
+inductive All2 {β γ : Type} (R : β → γ → Prop) : List β → List γ → Prop
+  | nil : All2 R [] []
+  | cons {a : β} {b : γ} {as : List β} {bs : List γ} : R a b → All2 R as bs → All2 R (a :: as) (b :: bs)
+
+theorem mapM'_broadcast (B : List Nat) : ∀ (us : List (SArr α)),
+    (∀ u ∈ us, Sub u.shape B ∧ u.WF) →
+    ∃ bs, mapM' (broadcastTo · B) us = some bs ∧
+      All2 (fun u b => b.shape = B ∧ b.WF ∧
+        ∀ j, InB j B → b.at j = u.at (clamp u.shape j)) us bs
+  | [], _ => ⟨[], rfl, .nil⟩
+  | u :: rest, h => by
+    obtain ⟨bs, hbs, hf⟩ := mapM'_broadcast B rest (fun v hv => h v (by simp [hv]))
+    obtain ⟨b, hb, hbsh, hbw, hbat⟩ := broadcastTo_spec u B (h u (by simp)).1 (h u (by simp)).2
+    exact ⟨b :: bs, by simp [mapM', hb, hbs], .cons ⟨hbsh, hbw, hbat⟩ hf⟩
+
+/-- The shape repair `result.shape = args[0].shape` re-installs the broadcast shape on the same
+buffer: whether or not the user function ravelled its result, the outcome is the same array. -/
+theorem ravel_repair (f : List α → α) (bs : List (SArr α)) (B : List Nat) (rv : Bool) :
+    (let res := freshN f bs B
+     let res := if rv then { res with shape := [prodN B], strides := [1] } else res
+     if res.shape != B then { res with shape := B, strides := contig B } else res) =
+    freshN f bs B := by
+  cases rv with
+  | false => simp [freshN]
+  | true =>
+    simp only [if_true]
+    by_cases hB : [prodN B] = B
+    · have hne : ¬ (([prodN B] != B) = true) := by simp [hB]
+      simp only [hne, if_false]
+      -- `B = [n]`, whose contiguous stride is `[1]`
+      cases B with
+      | nil => simp at hB
+      | cons n ns =>
+        cases ns with
+        | nil => simp [freshN, contig, prodN]
+        | cons m ms => simp at hB
+    · have hne : ([prodN B] != B) = true := by simp [hB]
+      simp only [hne, if_true, freshN]
+
+theorem forall₂_map_eq {us bs : List (SArr α)} {B : List Nat} {g : SArr α → α} {j : List Nat}
+    (hj : InB j B)
+    (h : All2 (fun u b => b.shape = B ∧ b.WF ∧
+        ∀ j, InB j B → b.at j = u.at (clamp u.shape j)) us bs)
+    (hg : ∀ u ∈ us, u.at (clamp u.shape j) = g u) :
+    bs.map (·.at j) = us.map g := by
+  induction h with
+  | nil => rfl
+  | cons hub _ ih =>
+    simp only [List.map_cons]
+    rw [hub.2.2 j hj, hg _ (by simp), ih (fun u hu => hg u (by simp [hu]))]
+
+/-- `ComponentLink.compute` on array arguments: for every elementwise user function `f` of any
+number of inputs, every stride pattern of the inputs, ravelled result or not, the result has the
+shape of the view and holds `f` of the inputs' elements at every index. -/
+theorem linkCompute_arr (f : List α → α) (rv : Bool) (as : List (SArr α)) (S : List Nat)
+    (hne : as ≠ []) (hall : ∀ a ∈ as, a.shape = S ∧ a.WF) :
+    ∃ res, linkCompute f rv (as.map .arr) = some (.arr res) ∧ res.shape = S ∧ res.WF ∧
+      ∀ idx, InB idx S → res.at idx = f (as.map (·.at idx)) := by
+  cases as with
+  | nil => exact absurd rfl hne
+  | cons a0 rest =>
+    have hus : ∀ u ∈ (a0 :: rest).map unbroadcast, Sub u.shape S ∧ u.WF := by
+      intro u hu
+      obtain ⟨a, ha, rfl⟩ := List.mem_map.mp hu
+      obtain ⟨h1, h2, _⟩ := unbroadcast_spec a (hall a ha).2
+      rw [(hall a ha).1] at h1
+      exact ⟨h1, h2⟩
+    obtain ⟨B, hB, hBS, hsub⟩ := bshapeAll_spec S (((a0 :: rest).map unbroadcast).map (·.shape))
+      (by simp) (by
+        intro sh hsh
+        obtain ⟨u, hu, rfl⟩ := List.mem_map.mp hsh
+        exact (hus u hu).1)
+    obtain ⟨bs, hbs, hf⟩ := mapM'_broadcast B ((a0 :: rest).map unbroadcast)
+      (fun u hu => ⟨hsub _ (List.mem_map.mpr ⟨u, hu, rfl⟩), (hus u hu).2⟩)
+    have hFS : Sub (freshN f bs B).shape S := hBS
+    obtain ⟨res, hres, hress, hresw, hresat⟩ :=
+      broadcastTo_spec (freshN f bs B) S hFS (contig_length B)
+    refine ⟨res, ?_, hress, hresw, ?_⟩
+    · simp only [List.map_cons, linkCompute, allArr_map]
+      simp only [List.map_cons] at hB hbs
+      simp only [hB, hbs]
+      have hrep := ravel_repair f bs B rv
+      simp only at hrep
+      rw [hrep, (hall a0 (by simp)).1, hres]
+      rfl
+    · intro idx hi
+      have hci : InB (clamp B idx) B := InB_clamp hBS hi
+      rw [hresat idx hi]
+      show (freshN f bs B).at (clamp B idx) = _
+      rw [freshN_at f bs B _ hci]
+      congr 1
+      rw [forall₂_map_eq (g := fun u => u.at (clamp u.shape idx)) hci hf]
+      · rw [List.map_map]
+        apply List.map_congr_left
+        intro a ha
+        obtain ⟨_, _, hat⟩ := unbroadcast_spec a (hall a ha).2
+        have := hat idx (by rw [(hall a ha).1]; exact hi)
+        simpa using this
+      · intro u hu
+        have hsu := hsub _ (List.mem_map.mpr ⟨u, hu, rfl⟩)
+        rw [clamp_clamp hsu hBS hi]
+
 end GlueVerif.Derived
